@@ -65,7 +65,10 @@ def parseBlock (key : Nat) (s : String) : Option BlockDesc :=
   match s.splitOn "." with
   | [base, size, avail, ep, mods, cands] =>
     some { block := ⟨nat base, nat size, if avail == "1" then some key else none⟩,
-           facts := ⟨optNat ep, (listOf mods "&").filterMap parsePair, (listOf cands "&").filterMap parseCand⟩ }
+           facts := ⟨optNat ep, (listOf mods "&").filterMap parsePair, (listOf cands "&").filterMap parseCand, none⟩ }
+  | [base, size, avail, ep, mods, cands, err] =>
+    some { block := ⟨nat base, nat size, if avail == "1" then some key else none⟩,
+           facts := ⟨optNat ep, (listOf mods "&").filterMap parsePair, (listOf cands "&").filterMap parseCand, optNat err⟩ }
   | _ => none
 
 structure InputDesc where
@@ -126,6 +129,8 @@ def errName : Err → String
   | .exec 25 => "EXEC_STACK_OVERFLOW"
   | .exec _ => "ERR_OTHER"
   | .iter _ => "COULD_NOT_READ_PROCESS_MEMORY"
+  | .verify 46 => "TOO_MANY_RE_FIBERS"
+  | .verify _ => "ERR_OTHER"
 
 def showMatches (ms : MatchTable) : String :=
   ";".intercalate (ms.flatMap fun p => p.2.map fun m => s!"s{p.1}@{m.base + m.off}:{m.len}")
